@@ -70,14 +70,59 @@ HapPeptides(tx, H, cfg) ==
 HapPeptidesT(tx, H, cfg, dropTail) ==
   SeqPeptides(Apply(tx.seq, H), tx.coding, tx.orfStart, ShiftedSecs(tx, H), cfg, dropTail)
 
-VariantPeptidesT(tx, V, cfg, canonical, dropTail) ==
-  (UNION {HapPeptidesT(tx, H, cfg, dropTail) : H \in Haplotypes(UsableVars(tx, V), StartIdx(tx))})
-     \ (RefPeptides(tx, cfg) \cup canonical)
+(***************************************************************************)
+(* W>F reassignment: every non-empty subset of the tryptophans of a        *)
+(* peptide read as phenylalanine.                                          *)
+(***************************************************************************)
+WPos(q) == {k \in 1..Len(q) : q[k] = "W"}
+W2FImage(q, S) == [k \in 1..Len(q) |-> IF k \in S THEN "F" ELSE q[k]]
+W2FImages(q) == {W2FImage(q, S) : S \in (SUBSET WPos(q)) \ {{}}}
+W2FAll(PP, cfg) == {x \in UNION {W2FImages(q) : q \in PP} : Keep(x, cfg)}
+
+(* optional configuration fields (absent = off)                                    *)
+MaxAdj(cfg) == IF "maxAdj" \in DOMAIN cfg THEN cfg.maxAdj ELSE 0
+SectOn(cfg) == IF "sect" \in DOMAIN cfg THEN cfg.sect ELSE FALSE
+W2FOn(cfg) == IF "w2f" \in DOMAIN cfg THEN cfg.w2f ELSE FALSE
+
+(* Selenocysteine termination (--selenocysteine-termination): translation of the    *)
+(* ORF pep may also stop at residue k (an annotated Sec read as U): the fragments    *)
+(* that contain residue k, cut before it.                                            *)
+SectAt(pep, k, cfg) ==
+  LET pairs == {ab \in FragPairs(pep, cfg) : ab[1] < k - 1 /\ ab[2] >= k}
+      cut == {SubSeq(pep, ab[1] + 1, k - 1) : ab \in pairs}
+      mless == IF Len(pep) > 0 /\ pep[1] = "M"
+               THEN {SubSeq(pep, 2, k - 1) : ab \in {x \in pairs : x[1] = 0}} ELSE {}
+  IN {q \in cut \cup mless : Keep(q, cfg)}
+(* residue index (1-based) of the Sec codon at sequence position p, for an ORF        *)
+(* starting at orfStart; 0 when out of frame or upstream                              *)
+SecResidue(orfStart, p) == IF p >= orfStart /\ (p - orfStart) % 3 = 0 THEN ((p - orfStart) \div 3) + 1 ELSE 0
+SectPeptidesSeq(s, orfStart, secs, cfg) ==
+  LET o == OrfOf(s, orfStart, secs)
+      ks == {SecResidue(orfStart, p) : p \in secs}
+  IN UNION {SectAt(o.pep, k, cfg) : k \in {j \in ks : j >= 1 /\ j <= Len(o.pep) /\ o.pep[j] = "U"}}
+HapSect(tx, H, cfg) ==
+  IF tx.coding /\ SectOn(cfg) THEN SectPeptidesSeq(Apply(tx.seq, H), tx.orfStart, ShiftedSecs(tx, H), cfg) ELSE {}
+
+(* loose: C02's permissive compatibility (chains of adjacent variants of any length) *)
+HapSets(tx, V, cfg, loose) ==
+  IF loose THEN HaplotypesLoose(UsableVars(tx, V), StartIdx(tx), MaxAdj(cfg))
+  ELSE HaplotypesK(UsableVars(tx, V), StartIdx(tx), MaxAdj(cfg))
+
+VariantPeptidesT(tx, V, cfg, canonical, dropTail, loose) ==
+  LET HS == HapSets(tx, V, cfg, loose)
+      main == UNION {HapPeptidesT(tx, H, cfg, dropTail) : H \in HS}
+      (* a Sec-truncated peptide is reported by callVariant only when it carries a       *)
+      (* variant: Complete leaves out what the unmodified transcript also gives          *)
+      sect == (UNION {HapSect(tx, H, cfg) : H \in HS}) \ (IF loose THEN {} ELSE HapSect(tx, {}, cfg))
+      base == (main \cup sect) \ (RefPeptides(tx, cfg) \cup canonical)
+      (* W>F images are made from the variant peptides themselves                        *)
+      w2f == IF W2FOn(cfg) THEN W2FAll(base, cfg) \ (IF loose THEN canonical ELSE (RefPeptides(tx, cfg) \cup canonical)) ELSE {}
+  IN base \cup w2f
 
 (* Complete: what C01 requires (open-ended tail fragments of mRNA_end_NF         *)
 (* transcripts are not required); Sound: what C02 allows (they are allowed)       *)
-VariantPeptides(tx, V, cfg, canonical) == VariantPeptidesT(tx, V, cfg, canonical, tx.endNF)
-VariantPeptidesSound(tx, V, cfg, canonical) == VariantPeptidesT(tx, V, cfg, canonical, FALSE)
+VariantPeptides(tx, V, cfg, canonical) == VariantPeptidesT(tx, V, cfg, canonical, tx.endNF, FALSE)
+VariantPeptidesSound(tx, V, cfg, canonical) == VariantPeptidesT(tx, V, cfg, canonical, FALSE, TRUE)
 
 (***************************************************************************)
 (* Context-sensitive cleavage sites.  A rule (or exception) that looks     *)
@@ -122,16 +167,7 @@ SeqOrfs(s, known, orfStart, secs) ==
   IF known THEN {OrfOf(s, orfStart, secs).pep} ELSE {OrfOf(s, i, {}).pep : i \in AtgStarts(s)}
 AllOrfs(tx, V) ==
   UNION {SeqOrfs(Apply(tx.seq, H), tx.coding, tx.orfStart, ShiftedSecs(tx, H)) :
-           H \in Haplotypes(UsableVars(tx, V), StartIdx(tx)) \cup {{}}}
-
-(***************************************************************************)
-(* W>F reassignment: every non-empty subset of the tryptophans of a        *)
-(* peptide read as phenylalanine.                                          *)
-(***************************************************************************)
-WPos(q) == {k \in 1..Len(q) : q[k] = "W"}
-W2FImage(q, S) == [k \in 1..Len(q) |-> IF k \in S THEN "F" ELSE q[k]]
-W2FImages(q) == {W2FImage(q, S) : S \in (SUBSET WPos(q)) \ {{}}}
-W2FAll(PP, cfg) == {x \in UNION {W2FImages(q) : q \in PP} : Keep(x, cfg)}
+           H \in HaplotypesLoose(UsableVars(tx, V), StartIdx(tx), 2) \cup {{}}}
 
 (***************************************************************************)
 (* C08: callNovelORF.  Every ATG of the three frames of a selected         *)
@@ -152,14 +188,7 @@ SecResidues(tx) == {((p - tx.orfStart) \div 3) + 1 : p \in {q \in tx.sec : q >= 
 AltTransTx(tx, cfg, canonical) ==
   LET o == OrfOf(tx.seq, tx.orfStart, tx.sec)
       plain == OrfPeptides(o.pep, cfg, TRUE, o.open, tx.endNF)
-      (* translation stopping at Sec residue k: the fragments that end there      *)
-      sectAt(k) == LET pre == SubSeq(o.pep, 1, k - 1)
-                       pairs == {ab \in FragPairs(o.pep, cfg) : ab[1] < k - 1 /\ ab[2] >= k}
-                       cut == {SubSeq(o.pep, ab[1] + 1, k - 1) : ab \in pairs}
-                       mless == IF Len(o.pep) > 0 /\ o.pep[1] = "M"
-                                THEN {SubSeq(o.pep, 2, k - 1) : ab \in {x \in pairs : x[1] = 0}} ELSE {}
-                   IN {q \in cut \cup mless : Keep(q, cfg)}
-      sect == IF cfg.sect THEN UNION {sectAt(k) : k \in {j \in SecResidues(tx) : j <= Len(o.pep) /\ o.pep[j] = "U"}} ELSE {}
+      sect == IF cfg.sect THEN UNION {SectAt(o.pep, k, cfg) : k \in {j \in SecResidues(tx) : j <= Len(o.pep) /\ o.pep[j] = "U"}} ELSE {}
       w2f == IF cfg.w2f THEN W2FAll(plain \cup sect, cfg) ELSE {}
   IN (sect \cup w2f) \ canonical
 =============================================================================
